@@ -4,7 +4,7 @@ import ast
 from fractions import Fraction as F
 
 from .. import assemblers as A
-from .. import bary, dualasm, idxspace, misc_guards, p1dofs, rwgdofs, shapesets as S, sparse, spaces, symex
+from .. import bary, bcsupport, dualasm, idxspace, misc_guards, p1dofs, rwgdofs, shapesets as S, sparse, spaces, symex
 from ..alg import V, vsum
 from ..core import AnalysisError
 from ..src import arg_names, unparse
@@ -248,6 +248,7 @@ def run(ctx):
     p1dofs.p1_dof_decisions(ctx)
     idxspace.index_spaces(ctx)
     misc_guards.dof_counts(ctx)
+    bcsupport.bc_support(ctx)
     dualasm.dual1_assembly(ctx)  # attachment of the DUAL1 dofs to their element / edges / vertices
     spaces.normal_multipliers(ctx)
     spaces.coefficient_maps(ctx)
